@@ -26,7 +26,7 @@ func init() {
 		Assumptions: []string{"a node cordoned after the list was taken is outside the statement (pre-scan snapshot)"}})
 	register(&propSpec{ID: "C10", Run: checkC10,
 		Explanation: "The grace reaper's append implies ¬protected(n) where protected is the existential search for key atlassian.com/no-delete with a non-empty value; the protected edge continues the loop (no break/return), the loop's only exit is exhaustion, and safeFromDeletion has no caller besides the grace reaper, so the annotation affects neither tainting nor counting.",
-		RuleText:    "R1 guard implication, R2 predicate shape, R3 continue-not-break, R4 callers / readers of the annotation key",
+		RuleText:    "R1 guard implication, R2 predicate shape, R3 continue-not-break, R4 callers / readers of the annotation key, R5 deletion flow, R6 listed objects reach the guard as the API server sent them (no transform, no writes)",
 		Assumptions: []string{"the force-removal path is outside the statement (\"and no force-removal taint\")"}})
 }
 
@@ -974,6 +974,9 @@ func checkC10(ck *Check) {
 		}
 		ck.cond(len(readers) == 0, "C10.R4", "no-delete-key/readers", "", "", "the annotation key is compared / looked up nowhere but in the predicate", strings.Join(readers, ", "), "")
 	}
+	// R6 the annotation the predicate reads is the API server's: no informer transform, no write
+	// into listed objects (decided as C01.R8)
+	ck.nodeListImmutability("C10.R6")
 }
 
 // protectedPredicate: safeFromDeletion's result 1 is true exactly on returns inside a map
@@ -1360,6 +1363,26 @@ func (ck *Check) collectFrom(fn *ssa.Function, ctx *Ctx, slice ssa.Value, fieldI
 	// it is the loop's accumulator phi (or a sort-in-place of it)
 	pr := sliceProv(slice)
 	var src *Term
+	if len(pr.Appends) == 0 && len(pr.Roots) == 1 {
+		// make(len(L)) filled index by index in a full range over L
+		if _, isMake := pr.Roots[0].(*ssa.MakeSlice); isMake && !makeSliceEmpty(pr.Roots[0]) {
+			et, over, ok := ck.mapCollect(fn, ctx, slice)
+			if !ok {
+				return nil, "sorted slice is a make of non-zero length that is not filled by one unconditional indexed store per element of a list"
+			}
+			for _, fi := range fieldIdx {
+				if et.Kind == "struct" && fi < len(et.Args) {
+					et = et.Args[fi]
+				} else {
+					return nil, "stored element is not a resolvable struct literal: " + et.String()
+				}
+			}
+			if et.Kind != "elem" || et.Args[0].Key() != over.Key() {
+				return nil, "collected component is not the element of the traversed list: " + et.String()
+			}
+			return over, ""
+		}
+	}
 	for _, ap := range pr.Appends {
 		if ap.Spread != nil || len(ap.Elems) != 1 {
 			return nil, "collect loop appends several elements"
